@@ -55,18 +55,15 @@ theorem canonTy_core (ty : UTy) :
 theorem tyNoWiden_core (ty : UTy) : tyNoWiden (fieldCore ty).1 = tyNoWiden ty := by
   cases ty <;> simp [fieldCore, tyNoWiden]
 
-theorem tyNoKwRef_core (ty : UTy) : tyNoKwRef (fieldCore ty).1 = tyNoKwRef ty := by
-  cases ty <;> simp [fieldCore, tyNoKwRef]
-
 /-- the statement for one type -/
 def TyRT (t : UTy) : Prop :=
-  ∀ (fuel : Nat) (rest : List Token), tyWf t = true → tyNoWiden t = true → tyNoKwRef t = true →
+  ∀ (fuel : Nat) (rest : List Token), tyWf t = true → tyNoWiden t = true →
     RestOk rest → (tyTail t).length < fuel →
     parseRoleGiven fuel (tyHead t) (tyTail t ++ rest) = .ok (canonTy t, rest)
 
 def FieldsRT (fs : UFields) : Prop :=
   ∀ (ext : Option Nat) (i fuel : Nat) (rest : List Token), fieldsWf fs = true →
-    fieldsNoWiden fs = true → fieldsNoKwRef fs = true →
+    fieldsNoWiden fs = true →
     (printFieldsLoop fs ext i).length ≤ fuel →
     componentLoop fuel i (printFieldsLoop fs ext i ++ rest) =
       .ok ((canonFields fs, extIn ext i fs.length), rest)
@@ -74,7 +71,7 @@ def FieldsRT (fs : UFields) : Prop :=
 def VariantsRT (vs : UVariants) : Prop :=
   ∀ (ext : Option Nat) (i : Nat) (seen : Bool) (fuel : Nat) (rest : List Token),
     0 < vs.length → variantsWf vs = true → variantsNoWiden vs = true →
-    variantsNoKwRef vs = true → (seen = true → extIn ext i vs.length = none) →
+    (seen = true → extIn ext i vs.length = none) →
     (printVariantsLoop vs ext i).length ≤ fuel →
     choiceLoop fuel i seen (printVariantsLoop vs ext i ++ rest) =
       .ok ((canonVariants vs, extIn ext i vs.length), rest)
@@ -86,58 +83,54 @@ theorem restOk_printSize (s : Size USz) (rest : List Token) (h : nextIsSep '{' r
 /-! ### leaves -/
 
 theorem tyRT_boolean : TyRT .boolean := by
-  intro fuel rest _ _ _ _ hf
+  intro fuel rest _ _ _ hf
   obtain ⟨f, rfl⟩ : ∃ f, fuel = f + 1 := ⟨fuel - 1, by omega⟩
   simp only [tyHead, tyTail, List.nil_append]
   rw [parseRoleGiven]; simp [kwClass_BOOLEAN, canonTy]
 
 theorem tyRT_null : TyRT .null := by
-  intro fuel rest _ _ _ _ hf
+  intro fuel rest _ _ _ hf
   obtain ⟨f, rfl⟩ : ∃ f, fuel = f + 1 := ⟨fuel - 1, by omega⟩
   simp only [tyHead, tyTail, List.nil_append]
   rw [parseRoleGiven]; simp [kwClass_NULL, canonTy]
 
 theorem tyRT_integer (r : Range URange) (cs : List (String × Int)) : TyRT (.integer r cs) := by
-  intro fuel rest hw hnw hk hr hf
+  intro fuel rest hw hnw hr hf
   obtain ⟨f, rfl⟩ : ∃ f, fuel = f + 1 := ⟨fuel - 1, by omega⟩
   simp only [tyWf, Bool.and_eq_true] at hw
   simp only [tyNoWiden] at hnw
-  simp only [tyNoKwRef] at hk
   have hlen : cs.length ≤ f := by
     have := length_printConstants tInt cs
     simp only [tyTail, List.length_append] at hf
     omega
   simp only [tyHead, tyTail, List.append_assoc]
   rw [parseRoleGiven]
-  simp only [kwClass_INTEGER, parseInteger_print r cs hw.1 hnw hk hw.2 f hlen rest hr, FR.bind_ok,
+  simp only [kwClass_INTEGER, parseInteger_print r cs hw.1 hnw hw.2 f hlen rest hr, FR.bind_ok,
     canonTy]
   rfl
 
 theorem tyRT_string (s : Size USz) (c : Charset) : TyRT (.string s c) := by
-  intro fuel rest hw _ hk hr hf
+  intro fuel rest hw _ hr hf
   obtain ⟨f, rfl⟩ : ∃ f, fuel = f + 1 := ⟨fuel - 1, by omega⟩
   simp only [tyWf] at hw
-  simp only [tyNoKwRef] at hk
   simp only [tyHead, tyTail]
   rw [parseRoleGiven]
   cases c <;>
     simp [charsetKeyword, kwClass_UTF8, kwClass_IA5, kwClass_NUMERIC, kwClass_PRINTABLE,
-      kwClass_VISIBLE, parseString, maybeReadSize_print s hw hk rest hr, canonTy]
+      kwClass_VISIBLE, parseString, maybeReadSize_print s hw rest hr, canonTy]
 
 theorem tyRT_octetString (s : Size USz) : TyRT (.octetString s) := by
-  intro fuel rest hw _ hk hr hf
+  intro fuel rest hw _ hr hf
   obtain ⟨f, rfl⟩ : ∃ f, fuel = f + 1 := ⟨fuel - 1, by omega⟩
   simp only [tyWf] at hw
-  simp only [tyNoKwRef] at hk
   simp only [tyHead, tyTail]
   rw [parseRoleGiven]
-  simp [kwClass_OCTET, eqIC_STRING, maybeReadSize_print s hw hk rest hr, canonTy]
+  simp [kwClass_OCTET, eqIC_STRING, maybeReadSize_print s hw rest hr, canonTy]
 
 theorem tyRT_bitString (s : Size USz) (cs : List (String × Nat)) : TyRT (.bitString s cs) := by
-  intro fuel rest hw _ hk hr hf
+  intro fuel rest hw _ hr hf
   obtain ⟨f, rfl⟩ : ∃ f, fuel = f + 1 := ⟨fuel - 1, by omega⟩
   simp only [tyWf, Bool.and_eq_true] at hw
-  simp only [tyNoKwRef] at hk
   have hlen : cs.length ≤ f := by
     have := length_printConstants tNat cs
     simp only [tyTail, List.length_append, List.length_cons] at hf
@@ -148,10 +141,10 @@ theorem tyRT_bitString (s : Size USz) (cs : List (String × Nat)) : TyRT (.bitSt
     FR.bind_ok, List.append_assoc]
   rw [maybeReadConstants_print tNat constantU64 inU64 constantU64_tNat cs hw.2 f hlen _
     (restOk_printSize s rest hr.brace)]
-  simp [maybeReadSize_print s hw.1 hk rest hr, canonTy]
+  simp [maybeReadSize_print s hw.1 rest hr, canonTy]
 
 theorem tyRT_enumerated (e : Enumerated) : TyRT (.enumerated e) := by
-  intro fuel rest hw _ _ _ hf
+  intro fuel rest hw _ _ hf
   obtain ⟨f, rfl⟩ : ∃ f, fuel = f + 1 := ⟨fuel - 1, by omega⟩
   simp only [tyWf] at hw
   have hlen : 2 * e.variants.length ≤ f := by
@@ -163,7 +156,7 @@ theorem tyRT_enumerated (e : Enumerated) : TyRT (.enumerated e) := by
   simp [kwClass_ENUMERATED, parseEnumerated_print e hw f hlen rest, canonTy]
 
 theorem tyRT_typeReference (n : String) (tag : Option Tag) : TyRT (.typeReference n tag) := by
-  intro fuel rest hw _ _ hr hf
+  intro fuel rest hw _ hr hf
   obtain ⟨f, rfl⟩ : ∃ f, fuel = f + 1 := ⟨fuel - 1, by omega⟩
   simp only [tyWf, Bool.and_eq_true, decide_eq_true_eq, Option.isNone_iff_eq_none] at hw
   obtain ⟨hkw, htag⟩ := hw
